@@ -52,7 +52,8 @@ def run(ctx):
                 return ctx.finish("other", "representation anchor missing", [], "")
             ci = cis[0]
             facts = [N(f) for f in A.g.facts_at(bb)]
-            t1 = "multiboot2::tag_type::primitive_conversion_impls::<impl core::convert::From<u32> for multiboot2::tag_type::TagType>::from"
+            from . import tagtables as TT_
+            t1 = TT_.conv_key(F, "t1")
             tt = F.adts["multiboot2::tag_type::TagType"]
             custom_idx = [v["idx"] for v in tt["variants"] if v["name"] == "Custom"][0]
             guard = [f for f in facts if f[0] == "cmp" and f[1] == "Eq" and f[3] == ("c", custom_idx) and f[2][0] == "discr"]
